@@ -25,6 +25,10 @@ func init() {
 		case 2:
 			forced["include"] = true
 			forced["interpolation"] = true
+		case 3:
+			// attribute-stress layouts, the focus rotating over the attributes with the most machinery behind them
+			focus := []string{"depends_on", "env_file", "volumes", "ports", "command", "environment", "healthcheck", "build", "labels", "networks", "extra_hosts", "secrets"}
+			forced = map[string]bool{"options": false, "keyorder": false, "stress": true, "override": true, "extends": c.Index%8 == 3, "focus:" + focus[(c.Index/4)%len(focus)]: true}
 		}
 		L := GenLayoutForced(r, forced)
 		out := RunLoad(L, Materialise(L), "", false)
